@@ -99,17 +99,33 @@ func ScanSequence(chunks []Chunk, seq []SeqElem, res map[string]*binaryregexp.Re
 		cums = append(cums, last)
 	}
 	off := [2]int{}
+	vars := map[string]string{}
 	for _, e := range seq {
-		re := res[e.Regex]
-		if re == nil {
-			re = compileRegex(e.Regex)
-			if res != nil {
-				res[e.Regex] = re
+		expr := e.Regex
+		if strings.Contains(expr, "@") {
+			// @name@ is replaced by the quoted text captured by an earlier element
+			for name, val := range vars {
+				expr = strings.ReplaceAll(expr, "@"+name+"@", "(?:"+binaryregexp.QuoteMeta(val)+")")
+			}
+			if strings.Contains(expr, "@") {
+				return false // unbound variable: the sequence cannot match
 			}
 		}
-		loc := re.FindIndex(buf[e.Dir][off[e.Dir]:])
+		re := res[expr]
+		if re == nil {
+			re = compileRegex(expr)
+			if res != nil {
+				res[expr] = re
+			}
+		}
+		loc := re.FindSubmatchIndex(buf[e.Dir][off[e.Dir]:])
 		if loc == nil {
 			return false
+		}
+		for i, name := range re.SubexpNames() {
+			if name != "" && loc[2*i] >= 0 {
+				vars[name] = string(buf[e.Dir][off[e.Dir]:][loc[2*i]:loc[2*i+1]])
+			}
 		}
 		if loc[1] != 0 {
 			off[e.Dir] += loc[1]
